@@ -10,6 +10,7 @@ R5 who may write the reference count / remove from the store
 R6 inode-number layout constants (host/virtual fields disjoint and within the VFS limit)
 R1 (cont.) an explicit `return Err` after the lookup counts like `?`; whatever is given back is entry.inode, once
 """
+import re
 from pyfbr import core, vf
 from rules import common
 
@@ -271,6 +272,8 @@ def r3_forget(ctx, F):
     ctx.check("R3-forget-shape", "remove-after-cas", okcas, "forget_one removes the inode without a successful compare-exchange", loc=rm[0].loc())
     ctx.check("R3-forget-shape", "remove-at-zero", okzero, "forget_one removes the inode although the new count is not known to be 0", loc=rm[0].loc())
     km = vf.render(v.call_args(rm[0])[2], b, short=True, vfx=v)
+    km_ok = re.fullmatch(r"phi\{!self\.cfg\.use_host_ino => 1 \| self\.cfg\.use_host_ino => Lt\(MAX_HOST_INO, .*\.id\.ino\)\}", km) is not None
+    ctx.check("R3-forget-shape", "keep-mapping-exact", km_ok, "forget_one must keep the (id -> number) record exactly for numbers it minted itself: `!use_host_ino || id.ino > MAX_HOST_INO`; it computes `%s`" % km[:200], loc=rm[0].loc())
     ctx.check("R3-forget-shape", "keep-mapping", "use_host_ino" in km and "MAX_HOST_INO" in km, "forget_one's keep_mapping is `%s`" % km[:200], loc=rm[0].loc(), detail=km[:160])
     # orderings are not Relaxed
     for c in cas + ld[:1]:
